@@ -219,6 +219,8 @@ esl_buffer_OpenFile(const char *filename, ESL_BUFFER **ret_bf)
    */
 #ifdef _POSIX_VERSION
   if (fstat(fileno(bf->fp), &fileinfo) == -1) ESL_XEXCEPTION(eslESYS, "fstat() failed");
+  /* fopen() succeeds on a directory (POSIX), and the first fread() then fails with EISDIR: a user error, not a system failure */
+  if (S_ISDIR(fileinfo.st_mode)) ESL_XFAIL(eslENOTFOUND, bf->errmsg, "%s is a directory, not a file", filename);
   filesize     = fileinfo.st_size;
   bf->pagesize = fileinfo.st_blksize;
   if (bf->pagesize < 512)     bf->pagesize = 512;      /* I feel paranoid about st_blksize range not being guaranteed to be sensible */
